@@ -126,8 +126,9 @@ def d4(ctx, prog, base, bl, fc, fc_body):
         ctx.undecided('C08-D3', fkey, f'final condition `{norm(test)}` not evaluable: {e}', fc.where(ifs[0]))
     # initial reference
     inits = []
+    in_hook = {k_.split(':')[-1].split('.')[-1] for k_ in getattr(bl, 'inlined_helpers', [])}      # helpers read as part of the per-batch hook
     for f_ in [m_ for c_ in prog.mro(base) for m_ in c_.methods.values()]:      # the record may be set up in a mixin of BaseAttack
-        if f_.name == bl.name:
+        if f_.name == bl.name or f_.name in in_hook:
             continue
         for s_ in ast.walk(f_.node):
             if isinstance(s_, ast.Assign) and len(s_.targets) == 1:
